@@ -15,3 +15,23 @@ claim("C12", "totality monitor: panic capture, build-tagged step-counting hooks 
       "Every input is pushed through Scan, SplitStatements, Parse, Walk and Compile (with and without parameters) in worker processes; a panic, more than 2e9 instrumented loop steps in one call, a CPU overrun that repeats in a solo re-run, a heap blow-up or the death of the worker refutes the property with that input as witness. 'Never hangs' is decided as bounded progress, not as an unbounded eventuality.",
       "Bounds are restatements chosen >=50x above the largest legitimate measurements (reported in the evidence); loops without a hook are only covered by the CPU watchdog. Known finding let-amplification is listed in known-findings.txt.",
       "DESIGN.md section 5, C12")
+
+claim("C07", "reference-model monitor: real Parse vs shunting-yard reference on exhaustive operator sequences and vs the layout printer's expected tree on seeded full programs in three layouts",
+      "The real parser is run on every operator sequence of length <=3/4 over all sixteen binary operators with six operand shapes and on seeded programs covering every operator and optional part, printed in several layouts; an independent grammar model (a different algorithm: shunting-yard; and the printer that knows what it printed) says which tree must come back. Held = no structural difference on the executions listed in the evidence.",
+      "Trusts pqlref (tree model, printer, shunting-yard, Diff) written from the property text and Appendix A of DESIGN.md; positions are not compared here (C10).",
+      "DESIGN.md section 5, C07")
+
+claim("C08", "metamorphic/round-trip monitor: tokens regenerated from the returned tree vs the real Scan of the source, over exhaustive single-token corruptions and seeded multi-fold corruptions",
+      "For every corruption of every corpus program (each token deleted, duplicated, transposed, truncated; each vocabulary token inserted at each position) plus seeded 2-3-fold corruptions and soups, the real Parse runs in a monitored worker; when it accepts, the token sequence regenerated purely from exported tree fields must equal the scanned source modulo the two permitted commas and empty statements. Error tokens can never be regenerated, so accepted lexical errors are caught by the same oracle.",
+      "Trusts pqlref/reprint.go and the real Scan as the tokenisation of the source (Scan itself is C09's subject).",
+      "DESIGN.md section 5, C08")
+
+claim("C10", "reference-model + invariant monitor: returned tree compared with the printer's expected tree including all spans; reflection invariants (Span() = extent, token boundaries, sibling order, re-scan); error positions vs an independent line/column function",
+      "The printer records the byte range of every token it writes, so for every generated program and layout the expected tree with all span fields is known; the real parser's tree must equal it, every node's Span() must equal the extent of its parts, and for corrupted sources every reachable span must be invalid or inside the source and every line:col of Parse/Compile error text must be the image of a byte offset.",
+      "Trusts pqlref (printer, Diff, reflection helpers, LineCol).",
+      "DESIGN.md section 5, C10")
+
+claim("C11", "invariant monitor: Walk with recording and pruning visitors vs a reflection enumeration of the tree",
+      "For every generated program the real Walk runs under panic capture with a recording visitor; the set, multiplicity and order of visited nodes is compared with a reflection walk over exported fields (function names and join kinds excepted), and for each node a pruning run must skip exactly its descendants.",
+      "Trusts the reflection enumeration (pqlref/reach.go); node identity is pointer identity.",
+      "DESIGN.md section 5, C11")
